@@ -1,0 +1,22 @@
+//go:build verif
+
+package wire
+
+// Verification hooks (build tag verif). A hook is a named point in the code at
+// which an external harness is told that the calling goroutine has arrived; the
+// harness may block the call to control the schedule. Without the tag the
+// points are empty (verif_off.go).
+
+var verifHook func(point string, subject any)
+
+// SetVerifHook installs the hook function. It must be set before the server
+// is used and not changed while it runs.
+func SetVerifHook(fn func(point string, subject any)) {
+	verifHook = fn
+}
+
+func verifPoint(point string, subject any) {
+	if fn := verifHook; fn != nil {
+		fn(point, subject)
+	}
+}
